@@ -105,7 +105,7 @@ var (
 )
 
 func concGoEnv() []string {
-	drop := map[string]bool{"CGO_ENABLED": true, "GOFLAGS": true, "GOPROXY": true, "GOSUMDB": true, "GOTOOLCHAIN": true}
+	drop := map[string]bool{"CGO_ENABLED": true, "GOFLAGS": true, "GOPROXY": true, "GOSUMDB": true, "GOTOOLCHAIN": true, "GOTMPDIR": true}
 	var env []string
 	for _, kv := range os.Environ() {
 		k := kv
@@ -132,15 +132,24 @@ func concHelper() string {
 		src := filepath.Join(dir, "harness-src")
 		out := filepath.Join(dir, "conc-race")
 		tmp := out + ".tmp." + strconv.Itoa(os.Getpid())
+		// the go tool's own scratch space stays next to the binaries (nothing under /tmp)
+		gotmp := filepath.Join(dir, "conc-gotmp-"+strconv.Itoa(os.Getpid()))
+		if err := os.MkdirAll(gotmp, 0o755); err != nil {
+			fmt.Fprintln(os.Stderr, "conc: scratch dir for the helper build:", err)
+			os.Exit(2)
+		}
+		defer os.RemoveAll(gotmp)
 		cmd := exec.Command("go", "build", "-race", "-tags", "verif", "-o", tmp, "./concrace")
 		cmd.Dir = src
-		cmd.Env = concGoEnv()
+		cmd.Env = append(concGoEnv(), "GOTMPDIR="+gotmp)
 		if b, err := cmd.CombinedOutput(); err != nil {
+			os.RemoveAll(gotmp)
 			os.Remove(tmp)
 			fmt.Fprintf(os.Stderr, "conc: building the race helper failed: %v\n%s\n", err, b)
 			os.Exit(2)
 		}
 		if err := os.Rename(tmp, out); err != nil {
+			os.RemoveAll(gotmp)
 			os.Remove(tmp)
 			fmt.Fprintln(os.Stderr, "conc: installing the race helper failed:", err)
 			os.Exit(2)
